@@ -195,6 +195,21 @@ def validate_trace(trace_path, module="World_Trace.tla", cfg="World_Trace.cfg", 
     return v[-1]["n"], v[-1]["viol"]
 
 
+def sanitize(path):
+    """a trace written by misbehaving code may hold bytes that are not UTF-8 (a value read from
+    freed memory): they are replaced, so that the trace can still be read and checked"""
+    try:
+        with open(path, "rb") as f:
+            b = f.read()
+    except OSError:
+        return
+    try:
+        b.decode("utf-8")
+    except UnicodeDecodeError:
+        with open(path, "w") as f:
+            f.write(b.decode("utf-8", errors="replace"))
+
+
 def _runs_of(path):
     """split a trace file into per-script runs: [(tid, [lines])]; a run starts at a Reset
     event (world, save/load domains) or is a single line (one event per script)"""
@@ -303,6 +318,7 @@ def exec_and_validate(domain, scripts, workdir, module, cfg, events_per_chunk=15
                     returncode = -999
                     stdout = "no termination within 900 s"
                 p = _P()
+            sanitize(tpp)
             if p.returncode == 0:
                 break
             # the code under test brought the process down (abort / segfault): find the script
